@@ -9,6 +9,10 @@ correspondence sweep ties to the implementation.
 import SpsdkVerif.Generated.PyFuns
 import SpsdkVerif.Model.Misc
 import SpsdkVerif.Proofs.Misc
+import SpsdkVerif.Generated.PyFuns2
+import SpsdkVerif.Generated.EnumTables
+import SpsdkVerif.Model.Misc2
+import SpsdkVerif.Proofs.Misc2
 
 namespace SpsdkVerif.C20
 open SpsdkVerif SpsdkVerif.Generated.PyFuns SpsdkVerif.Misc
@@ -402,5 +406,421 @@ example : valueToInt " 0x1F_0ul ".toList = some 0x1F0 ∧ valueToInt "0b".toList
 example : valueToBytes 70000 true 0 false = .ok [0, 1, 0x11, 0x70] := by decide
 example : reverseBits 0b0011 4 = 0b1100 := by decide
 example : bcdDigitOk 0x1234 = true ∧ bcdFromDigits (bcdToDigits 0x1234) = .ok 0x1234 := by decide
+
+/-! # Phase 2 — more of the code regenerated from the source, and more of the glue in the model
+
+`Generated.PyFuns2.*` are translated from /repo on every run by the extended translator (while loops with an explicit
+fuel argument, unrolled constant `for`, `int(ceil(a / b))` with the explicit 2^53 float guard, `Optional[int]`).
+Each is shown to agree with the hand model of phase 1 on its domain, and the key contracts are restated over the
+GENERATED function, so a changed source line must re-prove (or fails here). -/
+
+section Phase2
+open SpsdkVerif.Generated.PyFuns2 SpsdkVerif.Generated.EnumTables
+
+/-! ## `get_bytes_cnt_of_int` (generated, with fuel) -/
+
+/-- For a non-negative value the translated function — `while value != 0` loop included — computes what the hand model
+    computes, for every fuel above the byte count.  `byte_cnt` is an `Optional[int]` of which only the truthiness and the
+    value matter (`bcO.getD 0 = bc`: `None` and `0` both mean "not given").
+    Domain restriction `h53`: the source rounds with `int(ceil(cnt / 4))`, a FLOAT division; the translator keeps the
+    result only where it is exact (`cnt < 2^53`, i.e. values of fewer than 2^53 bytes). -/
+theorem getBytesCnt_generated_eq_model (fuel v : Nat) (a2n : Bool) (bc : Nat) (bcO : Option Int)
+    (hbc : bcO.getD 0 = (bc : Int)) (hf : byteLen v < fuel) (h53 : byteLen v < 2 ^ 53) :
+    getBytesCntOfInt fuel (v : Int) a2n bcO = liftNat (getBytesCnt v a2n bc) :=
+  getBytesCnt_gen_eq fuel v a2n bc bcO hbc hf h53
+
+/-- termination for `value ≥ 0`: some fuel suffices, every larger fuel gives the same answer, and the answer is never
+    "fuel exhausted" -/
+theorem getBytesCntGen_terminates (v : Nat) (a2n : Bool) (bc : Nat) (bcO : Option Int)
+    (hbc : bcO.getD 0 = (bc : Int)) (h53 : byteLen v < 2 ^ 53) :
+    ∃ fuel₀ r, r ≠ .error .other ∧ ∀ fuel, fuel₀ ≤ fuel → getBytesCntOfInt fuel (v : Int) a2n bcO = r := by
+  refine ⟨byteLen v + 1, liftNat (getBytesCnt v a2n bc), ?_, fun fuel h => getBytesCnt_gen_eq fuel v a2n bc bcO hbc (by omega) h53⟩
+  exact getBytesCnt_ne_other v a2n bc
+
+/-- NON-termination for negative values: `value >>= 8` never reaches 0 from below (`-1 >> 8 == -1`), so the translated
+    loop exhausts every fuel — `get_bytes_cnt_of_int(-1)` (and `value_to_bytes(-1)`, `load_hex_string(-1, n)`) hangs in
+    Python.  Robustness observation, outside the property's domain (C19 guards its caller). -/
+theorem getBytesCntGen_neg_exhausts (fuel : Nat) (v : Int) (hv : v < 0) (a2n : Bool) (bcO : Option Int) :
+    getBytesCntOfInt fuel v a2n bcO = .error .other :=
+  getBytesCnt_gen_neg fuel v hv a2n bcO
+
+/-- … in particular: no fuel suffices for `-1` -/
+theorem getBytesCntGen_neg_no_fuel (a2n : Bool) (bcO : Option Int) :
+    ¬ ∃ fuel r, getBytesCntOfInt fuel (-1) a2n bcO = .ok r := by
+  rintro ⟨fuel, r, h⟩
+  rw [getBytesCnt_gen_neg fuel (-1) (by omega) a2n bcO] at h
+  cases h
+
+/-- contract over the generated function: without `byte_cnt` the documented width (minimal; with `align_to_2n` 1, 2,
+    then the next multiple of 4) -/
+theorem getBytesCntGen_default (fuel v : Nat) (a2n : Bool) (hf : byteLen v < fuel) (h53 : byteLen v < 2 ^ 53) :
+    getBytesCntOfInt fuel (v : Int) a2n none = .ok ((
+      let m := max (byteLen v) 1
+      if a2n && m > 2 then (m + 3) / 4 * 4 else m : Nat) : Int) := by
+  rw [getBytesCnt_gen_eq fuel v a2n 0 none rfl hf h53, getBytesCnt_default]
+  rfl
+
+/-- contract over the generated function: the chosen width holds the value; an explicit `byte_cnt` is honoured or the
+    call is refused with an SPSDK error exactly when the value does not fit (same side condition as
+    `valueToBytes_roundtrip_partial`) -/
+theorem getBytesCntGen_fits (fuel v : Nat) (a2n : Bool) (bc : Nat) (bcO : Option Int)
+    (hbc : bcO.getD 0 = (bc : Int)) (hf : byteLen v < fuel) (h53 : byteLen v < 2 ^ 53)
+    (hfit : a2n = true → 2 < byteLen v → byteLen v ≤ bc → (byteLen v + 3) / 4 * 4 ≤ bc) :
+    (∃ n : Nat, getBytesCntOfInt fuel (v : Int) a2n bcO = .ok (n : Int) ∧ v < 256 ^ n ∧ (bc ≠ 0 → n = bc))
+    ∨ (getBytesCntOfInt fuel (v : Int) a2n bcO = .error .spsdk ∧ bc ≠ 0 ∧ 256 ^ bc ≤ v) := by
+  rw [getBytesCnt_gen_eq fuel v a2n bc bcO hbc hf h53]
+  rcases getBytesCnt_cases v a2n bc hfit with ⟨n, h1, h2, h3⟩ | ⟨h1, h2, h3⟩
+  · exact Or.inl ⟨n, by rw [h1]; rfl, h2, h3⟩
+  · exact Or.inr ⟨by rw [h1]; rfl, h2, h3⟩
+
+/-! ## `BcdVersion3._check_number` (generated, `for index in range(4)` unrolled) -/
+
+theorem bcdCheckNumber_generated_eq_model (n : Int) :
+    bcdCheckNumber n = if 0 ≤ n ∧ bcdDigitOk n.toNat = true then .ok true else .error .spsdk :=
+  bcdCheckNumber_eq n
+
+/-- whatever the generated check accepts round-trips through the textual form -/
+theorem bcd_roundtrip_generated (n : Int) (h : bcdCheckNumber n = .ok true) :
+    0 ≤ n ∧ bcdFromDigits (bcdToDigits n.toNat) = .ok n.toNat := by
+  rw [bcdCheckNumber_eq] at h
+  by_cases hc : 0 ≤ n ∧ bcdDigitOk n.toNat = true
+  · exact ⟨hc.1, bcd_roundtrip' _ hc.2⟩
+  · rw [if_neg hc] at h; cases h
+
+/-! ## guards and length arithmetic of `swap32`, `reverse_bytes_in_longs`, `extend_block`, `align_block` (generated slices) -/
+
+/-- the model's `swap32` is the generated guard followed by the byte swap -/
+theorem swap32_guard_generated (x : Int) :
+    swap32 x = match swap32Guard x with
+      | .error e => .error e
+      | .ok _ => .ok (Int.ofNat (leDec (beEnc 4 x.toNat))) := by
+  unfold swap32 swap32Guard
+  by_cases h : x < 0 ∨ x > 0xFFFFFFFF
+  · rcases h with h | h <;> simp [h]
+  · have h1 : ¬ x < 0 := by omega
+    have h2 : ¬ x > 4294967295 := by omega
+    simp [h1, h2]
+
+theorem swap32Guard_err (x : Int) : (x < 0 ∨ x > 0xFFFFFFFF) ↔ swap32Guard x = .error .spsdk := by
+  unfold swap32Guard
+  by_cases h : x < 0 ∨ x > 4294967295
+  · rcases h with h | h <;> simp [h]
+  · have h1 : ¬ x < 0 := by omega
+    have h2 : ¬ x > 4294967295 := by omega
+    simp [h1, h2]
+
+theorem reverseBytesInLongs_guard_generated (b : Bytes) :
+    reverseBytesInLongs b = match revLongsGuard b.length with
+      | .error e => .error e
+      | .ok _ => .ok ((chunk4 b).map List.reverse).flatten := by
+  unfold reverseBytesInLongs revLongsGuard
+  simp only [pyMod, Int.fmod_eq_emod_of_nonneg _ (show (0 : Int) ≤ 4 by omega)]
+  by_cases h : b.length % 4 = 0
+  · have : (b.length : Int) % 4 = 0 := by omega
+    simp [h, this]
+  · have : ¬ (b.length : Int) % 4 = 0 := by omega
+    simp [h, this]
+
+/-- `extend_block`: the model is the generated `num_padding` computation followed by appending that many padding bytes -/
+theorem extendBlock_generated (d : Bytes) (len pad : Int) (p : UInt8) :
+    extendBlock d len p = match extendBlockNumPadding d.length len pad with
+      | .error e => .error e
+      | .ok n => .ok (d ++ List.replicate n.toNat p) := by
+  unfold extendBlock extendBlockNumPadding
+  by_cases h : len < d.length
+  · simp [h]
+  · simp only [h, if_false, decide_false, Bool.false_eq_true]
+    congr 3
+    omega
+
+/-- the generated `num_padding` of `align_block`: refused exactly for `alignment ≤ 0`, otherwise the distance to the
+    smallest multiple of the alignment not below the length (`0 ≤ r < a`, `a ∣ len + r`) -/
+theorem alignBlockNumPadding_spec (len : Nat) (a : Int) :
+    (a ≤ 0 → alignBlockNumPadding len a = .error .spsdk) ∧
+    (0 < a → ∃ r, alignBlockNumPadding len a = .ok r ∧ 0 ≤ r ∧ r < a ∧ a ∣ (len : Int) + r) := by
+  constructor
+  · intro ha
+    unfold alignBlockNumPadding
+    by_cases h : a < 0
+    · simp [h]
+    · have h0 : a = 0 := by omega
+      have := (align_err (len : Int) a).1 (Or.inl ha)
+      simp [h, this]
+  · intro ha
+    obtain ⟨r, hr, hd, h1, h2⟩ := align_spec (len : Int) a ha (by omega)
+    have hn : ¬ a < 0 := by omega
+    refine ⟨r - len, by simp [alignBlockNumPadding, hn, hr], by omega, by omega, ?_⟩
+    have : (len : Int) + (r - len) = r := by omega
+    rw [this]; exact hd
+
+/-- `align_block`: the model is the generated `num_padding` computation followed by appending that many padding bytes
+    (proved through the *contract* of the generated `align`, so any spelling of `align` that satisfies `align_spec` works) -/
+theorem alignBlock_generated (d : Bytes) (a : Int) (p : UInt8) :
+    alignBlock d a p = match alignBlockNumPadding d.length a with
+      | .error e => .error e
+      | .ok n => .ok (d ++ List.replicate n.toNat p) := by
+  by_cases ha : a ≤ 0
+  · rw [(alignBlockNumPadding_spec d.length a).1 ha]
+    simp [alignBlock, ha]
+  · have ha' : 0 < a := by omega
+    obtain ⟨k, rfl⟩ := Int.eq_ofNat_of_zero_le (Int.le_of_lt ha')
+    have hk : 0 < k := by omega
+    obtain ⟨r, hr, h0, h1, h2⟩ := (alignBlockNumPadding_spec d.length (k : Int)).2 ha'
+    obtain ⟨m1, m2, m3⟩ := alignNat_int d.length k hk
+    have : (d.length : Int) + r = alignNat d.length k :=
+      mult_unique (k : Int) d.length _ _ ha' h2 m1 ⟨by omega, by omega⟩ ⟨m2, m3⟩
+    rw [hr]
+    simp only [alignBlock, ha, if_false, Int.toNat_natCast]
+    congr 3
+    omega
+
+/-! ## `load_hex_string`, literal branch (hand model `Misc.loadHexString`)
+
+Documented contract: "hexadecimal value … expected size of key in bytes … raises SPSDKError: invalid key".
+What the code does for a string literal `s` (that is not the name of an existing file): `"0x"` is prepended unless
+present, the text goes through `value_to_int` (so `_` separators and `u/l` suffixes are accepted) and the NUMBER is
+written big-endian on `expected_size` bytes by `value_to_bytes(…, align_to_2n=True, byte_cnt=expected_size)`.
+Hence: accepted exactly when the number's width (rounded up to a multiple of 4 from 3 bytes on) fits — not "exactly when the
+literal has `expected_size` bytes": shorter literals are zero-extended on the left, and a literal of exactly 3, 5, 6, 7, …
+bytes with a non-zero first byte is REFUSED.  Recorded as behaviour (callers use sizes 8, 16, 24, 32, 64). -/
+
+theorem loadHexString_literal_iff (s : List Char) (n : Int) (hs : s ≠ []) (hn : 1 ≤ n) (b : Bytes) :
+    (loadHexString (.str s) n = .ok (some b) ↔
+      ∃ v, valueToInt (with0x s) = some v ∧ widthA v ≤ n.toNat ∧ b = beEnc n.toNat v) ∧
+    (loadHexString (.str s) n = .ok (some b) →
+      (b.length : Int) = n ∧ ∃ v, valueToInt (with0x s) = some v ∧ beDec b = v) ∧
+    ((¬ ∃ v, valueToInt (with0x s) = some v ∧ widthA v ≤ n.toNat) → loadHexString (.str s) n = .error .spsdk) := by
+  rw [loadHexString_str s n hs hn]
+  cases hv : valueToInt (with0x s) with
+  | none => simp
+  | some v =>
+    by_cases hw : widthA v ≤ n.toNat
+    · simp only [hw, if_true]
+      refine ⟨⟨fun h => ⟨v, rfl, hw, ?_⟩, fun ⟨v', e, _, hb⟩ => ?_⟩, fun h => ?_, fun h => absurd ⟨v, rfl, hw⟩ h⟩
+      · cases h; rfl
+      · cases e; rw [hb]
+      · cases h
+        refine ⟨?_, v, rfl, beDec_beEnc _ _ (fits_of_widthA v _ hw)⟩
+        rw [beEnc_length]; omega
+    · simp only [hw, if_false]
+      refine ⟨⟨fun h => (by cases h), fun ⟨v', e, hw', _⟩ => ?_⟩, fun h => (by cases h), by simp⟩
+      cases e; exact absurd hw' hw
+
+/-- value preserved: the hex text of exactly `expected_size` bytes (lower case, with or without `0x`) loads to those
+    bytes — for the sizes where the `align_to_2n` rounding cannot bite (1, 2 or a multiple of 4) -/
+theorem loadHexString_exact_hex (bs : Bytes) (n : Int) (hlen : (bs.length : Int) = n) (hn : 1 ≤ n)
+    (hq : n ≤ 2 ∨ n % 4 = 0) :
+    loadHexString (.str (hexOf bs)) n = .ok (some bs) ∧
+    loadHexString (.str ('0' :: 'x' :: hexOf bs)) n = .ok (some bs) := by
+  have hne : bs ≠ [] := by intro h; subst h; simp at hlen; omega
+  have hN : n.toNat = bs.length := by omega
+  obtain ⟨p1, p2⟩ := valueToInt_hexOf bs hne
+  have hb := byteLen_le _ _ (beDec_lt bs)
+  have hw : widthA (beDec bs) ≤ n.toNat := by
+    unfold widthA; split <;> omega
+  have hw' : widthA (beDec bs) ≤ bs.length := by omega
+  constructor
+  · rw [loadHexString_str _ n (hexOf_ne_nil bs hne) hn, p1]
+    simp only [hN, hw', if_true, beEnc_beDec]
+  · rw [loadHexString_str _ n (by simp) hn, p2]
+    simp only [hN, hw', if_true, beEnc_beDec]
+
+/-- bytes are returned unchanged WITHOUT a size check; an int is written big-endian on `expected_size` bytes when it fits -/
+theorem loadHexString_bytes_int (n : Int) (hn : 1 ≤ n) :
+    (∀ b : Bytes, b ≠ [] → loadHexString (.bytes b) n = .ok (some b)) ∧
+    (∀ v : Nat, v ≠ 0 → loadHexString (.int v) n =
+      if widthA v ≤ n.toNat then .ok (some (beEnc n.toNat v)) else .error .spsdk) := by
+  have hn' : ¬ n < 1 := by omega
+  have hN : n.toNat ≠ 0 := by omega
+  constructor
+  · intro b hb
+    have : b.isEmpty = false := by cases b <;> simp_all
+    simp [loadHexString, HexSrc.falsy, this, hn']
+  · intro v hv
+    have h1 : ((v : Int) == 0) = false := by simp [hv]
+    have h2 : ¬ ((v : Int) < 0) := by omega
+    simp only [loadHexString, HexSrc.falsy, h1, hn', h2, Bool.false_eq_true, if_false, Int.toNat_natCast, valueToBytes,
+      getBytesCnt_true v _ hN]
+    by_cases hw : widthA v ≤ n.toNat <;> simp [hw]
+
+/-- the recorded deviations from "accepted exactly when the literal has expected_size bytes" -/
+example : loadHexString (.str "010203".toList) 3 = .error .spsdk ∧               -- exactly 3 bytes: refused
+          loadHexString (.str "0102".toList) 3 = .ok (some [0, 1, 2]) ∧           -- 2 bytes: zero-extended
+          loadHexString (.str "0001020304".toList) 4 = .ok (some [1, 2, 3, 4]) ∧  -- 5 bytes with a zero first byte: accepted
+          loadHexString (.bytes [1, 2]) 16 = .ok (some [1, 2]) ∧                  -- bytes: size unchecked
+          loadHexString (.str "12_34ul".toList) 2 = .ok (some [0x12, 0x34]) ∧     -- number grammar, not just hex digits
+          loadHexString (.str "".toList) 2 = .ok none := by decide                -- falsy source: random value
+
+/-! ## `value_to_bool`, `BinaryPattern`, `split_data` -/
+
+/-- strings are true exactly for the four spellings in the source (generated table), ints by `!= 0` -/
+theorem valueToBool_spec :
+    (∀ s, valueToBool (.str s) = true ↔ s ∈ valueToBoolTrue) ∧ (∀ i, valueToBool (.int i) = true ↔ i ≠ 0) ∧
+    valueToBool .none = false ∧ (∀ b, valueToBool (.bool b) = b) := by
+  refine ⟨fun s => by simp [valueToBool], fun i => by simp [valueToBool], rfl, fun _ => rfl⟩
+
+/-- `BinaryPattern(p)` is accepted exactly for a number (`value_to_int` grammar) or one of the special names -/
+theorem patternAccept_iff (p : List Char) :
+    patternAccept p = true ↔ (∃ v, valueToInt p = some v) ∨ p ∈ binaryPatternSpecial := by
+  simp [patternAccept, Option.isSome_iff_exists]
+
+/-- the `pattern` property of a number re-parses to the same number (`hex()` stays inside the grammar), so it is
+    accepted again and is a fixed point of the property -/
+theorem patternProp_reparse (p : List Char) (v : Nat) (h : valueToInt p = some v) :
+    valueToInt (patternProp p) = some v ∧ patternAccept (patternProp p) = true ∧
+    patternProp (patternProp p) = patternProp p := by
+  have e : patternProp p = pyHex v := by simp [patternProp, h]
+  have k := valueToInt_pyHex v
+  refine ⟨by rw [e, k], by rw [e]; simp [patternAccept, k], ?_⟩
+  rw [e]; simp [patternProp, k]
+
+/-- special names are their own `pattern` (none of them is a number) -/
+example : binaryPatternSpecial.all (fun p => patternProp p == p && patternAccept p) = true := by decide
+
+/-- `split_data` with a positive size: the chunks concatenate to the data, every chunk has 1..size bytes, all but the
+    last exactly `size`, and there are ⌈len/size⌉ of them -/
+theorem splitData_spec (d : Bytes) (size : Int) (h : 0 < size) :
+    ∃ cs, splitData d size = .ok cs ∧ cs.flatten = d ∧ (∀ c ∈ cs, 1 ≤ c.length ∧ (c.length : Int) ≤ size) ∧
+      (∀ c ∈ cs.dropLast, (c.length : Int) = size) ∧ cs.length = (d.length + size.toNat - 1) / size.toNat := by
+  obtain ⟨k, rfl⟩ := Int.eq_ofNat_of_zero_le (Int.le_of_lt h)
+  have hk : 0 < k := by omega
+  obtain ⟨i1, i2, i3, i4⟩ := chunksF_spec d.length k d hk (Nat.le_refl _)
+  have h0 : ¬ (k : Int) = 0 := by omega
+  have h1 : ¬ (k : Int) < 0 := by omega
+  refine ⟨_, by simp only [splitData, h0, h1, if_false]; rfl, ?_, ?_, ?_, ?_⟩
+  · simpa using i1
+  · intro c hc
+    have := i2 c (by simpa using hc)
+    exact ⟨this.1, by omega⟩
+  · intro c hc
+    have := i3 c (by simpa using hc)
+    omega
+  · simpa using i4
+
+/-- size 0 is a `ValueError`; a NEGATIVE size silently yields no chunk at all (the data is dropped) — robustness
+    observation, the callers pass positive constants -/
+theorem splitData_nonpos (d : Bytes) (size : Int) (h : size ≤ 0) :
+    splitData d size = if size = 0 then .error .other else .ok [] := by
+  unfold splitData
+  by_cases h0 : size = 0
+  · simp [h0]
+  · have : size < 0 := by omega
+    simp [h0, this]
+
+/-! ## `SpsdkEnum` lookups (generic model over a member table; two real tables generated from the source) -/
+
+/-- unknown tag / label → `SPSDKKeyError`, and only then -/
+theorem enum_unknown_iff (E : List EnumRow) :
+    (∀ t, fromTag E t = .error .spsdk ↔ ∀ m ∈ E, m.1 ≠ t) ∧
+    (∀ l, fromLabel E l = .error .spsdk ↔ ∀ m ∈ E, upper m.2.1 ≠ upper l) := by
+  constructor
+  · intro t
+    unfold fromTag
+    cases h : E.find? (fun m => m.1 == t) with
+    | none =>
+      simp only [true_iff]
+      intro m hm
+      have := List.find?_eq_none.1 h m hm
+      simpa using this
+    | some m =>
+      simp only [reduceCtorEq, false_iff]
+      intro hall
+      have h1 := List.find?_some h
+      exact hall m (List.mem_of_find?_eq_some h) (by simpa using h1)
+  · intro l
+    unfold fromLabel
+    cases h : E.find? (fun m => upper m.2.1 == upper l) with
+    | none =>
+      simp only [true_iff]
+      intro m hm
+      have := List.find?_eq_none.1 h m hm
+      simpa using this
+    | some m =>
+      simp only [reduceCtorEq, false_iff]
+      intro hall
+      have h1 := List.find?_some h
+      exact hall m (List.mem_of_find?_eq_some h) (by simpa using h1)
+
+/-- a successful lookup returns a member carrying that tag / that label up to case -/
+theorem enum_lookup_sound (E : List EnumRow) (m : EnumRow) :
+    (∀ t, fromTag E t = .ok m → m ∈ E ∧ m.1 = t) ∧
+    (∀ l, fromLabel E l = .ok m → m ∈ E ∧ upper m.2.1 = upper l) := by
+  constructor
+  · intro t h
+    unfold fromTag at h
+    cases hf : E.find? (fun m => m.1 == t) with
+    | none => rw [hf] at h; cases h
+    | some m' =>
+      rw [hf] at h; cases h
+      exact ⟨List.mem_of_find?_eq_some hf, by simpa using List.find?_some hf⟩
+  · intro l h
+    unfold fromLabel at h
+    cases hf : E.find? (fun m => upper m.2.1 == upper l) with
+    | none => rw [hf] at h; cases h
+    | some m' =>
+      rw [hf] at h; cases h
+      exact ⟨List.mem_of_find?_eq_some hf, by simpa using List.find?_some hf⟩
+
+/-- label lookup is case-insensitive -/
+theorem fromLabel_caseInsensitive (E : List EnumRow) (l l' : List Char) (h : upper l = upper l') :
+    fromLabel E l = fromLabel E l' := by
+  unfold fromLabel; rw [h]
+
+/-- on a well-formed table (tags distinct, labels distinct up to case) the lookups are mutually inverse:
+    `from_tag(get_tag(label)) = from_label(label)`, `from_label(get_label(tag)) = from_tag(tag)`,
+    and every member is found by its own tag and by its own label -/
+theorem enum_roundtrip (E : List EnumRow) (hwf : enumWF E = true) :
+    (∀ m ∈ E, fromTag E m.1 = .ok m ∧ fromLabel E m.2.1 = .ok m) ∧
+    (∀ l m, fromLabel E l = .ok m → getTag E l = .ok m.1 ∧ fromTag E m.1 = .ok m) ∧
+    (∀ t m, fromTag E t = .ok m → getLabel E t = .ok m.2.1 ∧ fromLabel E m.2.1 = .ok m) := by
+  simp only [enumWF, Bool.and_eq_true, decide_eq_true_eq] at hwf
+  have key : ∀ m ∈ E, fromTag E m.1 = .ok m ∧ fromLabel E m.2.1 = .ok m := by
+    intro m hm
+    constructor
+    · unfold fromTag
+      rw [show E.find? (fun m' => m'.1 == m.1) = some m from find_unique (fun m : EnumRow => m.1) E hwf.1 m hm]
+    · unfold fromLabel
+      rw [show E.find? (fun m' => upper m'.2.1 == upper m.2.1) = some m from
+        find_unique (fun m : EnumRow => upper m.2.1) E hwf.2 m hm]
+  refine ⟨key, ?_, ?_⟩
+  · intro l m h
+    exact ⟨by simp [getTag, h], (key m ((enum_lookup_sound E m).2 l h).1).1⟩
+  · intro t m h
+    exact ⟨by simp [getLabel, h], (key m ((enum_lookup_sound E m).1 t h).1).2⟩
+
+/-- `contains` answers truthfully -/
+theorem enum_contains_iff (E : List EnumRow) :
+    (∀ t, containsTag E t = true ↔ ∃ m ∈ E, m.1 = t) ∧
+    (∀ l, containsLabel E l = true ↔ ∃ m ∈ E, upper m.2.1 = upper l) := by
+  constructor
+  · intro t; simp [containsTag, List.find?_isSome]
+  · intro l; simp [containsLabel, List.find?_isSome]
+
+set_option maxRecDepth 8000 in
+/-- the two real member tables (regenerated from the source) are well-formed and non-empty, so `enum_roundtrip` applies:
+    a duplicated tag or a label clash up to case introduced in the source fails here -/
+theorem real_enums_wf :
+    enumWF enumSb2CmdTag = true ∧ enumWF enumAhabTargetMemory = true ∧
+    enumSb2CmdTag ≠ [] ∧ enumAhabTargetMemory ≠ [] := by decide
+
+example : fromLabel enumAhabTargetMemory "NoR".toList = .ok (1, "nor".toList, none) ∧
+          fromTag enumSb2CmdTag 6 = .error .spsdk ∧ getTag enumSb2CmdTag "erase".toList = .ok 7 ∧
+          (getDescription enumSb2CmdTag 11 none).toOption.join.isSome = true ∧
+          getDescription enumSb2CmdTag 1 (some ['d']) = .ok (some ['d']) := by decide
+
+/-! ## non-vacuity for the generated phase-2 functions -/
+
+example : getBytesCntOfInt 10 70000 true none = .ok 4 ∧ getBytesCntOfInt 10 70000 false none = .ok 3 ∧
+          getBytesCntOfInt 10 65536 true (some 3) = .error .spsdk ∧ getBytesCntOfInt 10 0 true (some 0) = .ok 1 ∧
+          getBytesCntOfInt 2 70000 true none = .error .other ∧          -- fuel too small
+          getBytesCntOfInt 64 (-1) true none = .error .other := by decide     -- never terminates
+example : bcdCheckNumber 0x1234 = .ok true ∧ bcdCheckNumber 0x12A4 = .error .spsdk ∧ bcdCheckNumber (-1) = .error .spsdk := by decide
+example : alignBlockNumPadding 13 8 = .ok 3 ∧ alignBlockNumPadding 16 8 = .ok 0 ∧ alignBlockNumPadding 5 0 = .error .spsdk ∧
+          extendBlockNumPadding 5 9 0 = .ok 4 ∧ extendBlockNumPadding 5 4 0 = .error .spsdk := by decide
+example : splitData [1, 2, 3, 4, 5, 6, 7] 3 = .ok [[1, 2, 3], [4, 5, 6], [7]] ∧ splitData [1, 2] (-1) = .ok [] := by decide
+example : patternProp "0b101".toList = "0x5".toList ∧ patternAccept "inc".toList = true ∧ patternAccept "incr".toList = false ∧
+          patternAccept "".toList = false := by decide
+
+end Phase2
 
 end SpsdkVerif.C20
